@@ -13,7 +13,7 @@ import math
 import numpy as np
 
 from .. import circmon
-from ..gen import haar, pick_seed
+from ..gen import equivalent_variant, haar, pick_seed
 from .common import drain_into, merge_stats, setup
 
 PROPERTY = "C14"
@@ -266,6 +266,7 @@ def run(ctx):
                 circ.herald(int(rng.integers(0, 2)), int(m), int(o))
             heralded = True
             ctx.bucket("heralded_circuit")
+        circ, variant = equivalent_variant(circ, rng)
         noisy = bool(rng.random() < 0.4)
         seed = pick_seed(rng) if rng.random() < 0.8 else None
         if noisy:
